@@ -306,6 +306,15 @@ def simulate(case):
             err = None
             for n in NAMES:
                 spec.cur[n] = list(spec.stored[n])
+        elif k == "fcommit":
+            # a FRESH TestSuite on the directory (it sees the committed lists) edits one relation and commits;
+            # then this suite reloads / is re-opened: it must show the committed lists, the edit included
+            err = None
+            for n in NAMES:
+                spec.cur[n] = list(spec.stored[n])
+            for sub in st["ops"]:
+                spec.table_step(dict(sub, t=st["t"]))      # an operation that raises is skipped over there too
+            spec.stored[st["t"]] = list(spec.cur[st["t"]])
         elif k == "process":
             err = None
             nit = len(spec.cur["item"])
@@ -360,6 +369,32 @@ class ScriptedCPU(interface.Processor):
         if "chart" in tmpl:
             resp["chart"] = [{k: py_val(v) for k, v in e.items()} for e in tmpl["chart"]]
         return resp
+
+
+def iter_probes(t, n):
+    """iterator lifetimes: several iterations of one table alive at once (rows as typed lists).
+    `multi`: an iterator and a select() generator are started and advanced by one row, then the table is
+    fully iterated, measured, indexed, selected and zipped with itself, then both are resumed."""
+    names = [f.name for f in t.fields]       # (select() without names yields empty rows, whatever its docstring says)
+
+    def multi():
+        it = iter(t)
+        a = [trow(x) for x in itertools.islice(it, 1)]
+        g = t.select(*names)
+        b = [trow(x) for x in itertools.islice(g, 1)]
+        full = [trow(x) for x in t]
+        len(t)
+        if n:
+            t[0], t[-1]
+        sel = [trow(x) for x in t.select(*names)]
+        zipped = [[trow(x), trow(y)] for x, y in zip(t, t)]
+        rest = [trow(x) for x in it]
+        restg = [trow(x) for x in g]
+        return {"first": a, "rest": rest, "sfirst": b, "srest": restg, "full": full, "sel": sel, "zip": zipped}
+    P = {"multi": guarded(multi)}
+    if n <= 3:
+        P["nested"] = guarded(lambda: [[trow(a), trow(b)] for a in t for b in t])
+    return P
 
 
 def raw_lines(d, name, tx, gzp):
@@ -517,7 +552,7 @@ class Gen:
 
 def with_obs(step, gen, n_guess=4):
     """attach the queries and the set of observed tables to a step"""
-    if "t" in step:
+    if "t" in step and step["k"] != "fcommit":
         step["ot"] = [step["t"]]
         for other in (TWINS.get(step["t"]), step.get("src")):
             if other and other not in step["ot"]:
@@ -664,8 +699,24 @@ def random_history(rng, long=False):
                 st["rows"] = [st["rows"][0] for _ in st["rows"]]
                 st["dup"] = True
                 st["form"] = rng.choice(["row", "list"])
+        if st["k"] in ("append", "extend") and rng.random() < 0.2:
+            st["hold"] = True          # an iterator obtained before the operation, consumed after it
         # aliasing: rows taken from a table (same one, its twin relation) and stored again; a foreign suite
         r2 = rng.random()
+        if r2 > 0.97:
+            ops = []
+            for _ in range(rng.randrange(1, 3)):
+                q = rng.random()
+                if q < 0.4:
+                    ops.append({"k": "append", "row": gen.row(t)})
+                elif q < 0.6 and len(FIELDS[t]) > 1:
+                    c = rng.randrange(1, len(FIELDS[t]))
+                    ops.append({"k": "update", "i": rng.choice([0, -1]), "data": [[FIELDS[t][c][0], gen.val(FIELDS[t][c][1])]]})
+                elif q < 0.85:
+                    ops.append({"k": "setslice", "sl": [rng.choice([0, 1, -1]), rng.choice([None, 1, 2]), None], "rows": []})
+                else:
+                    ops.append({"k": "clear"})
+            steps.append(with_obs({"k": "fcommit", "t": t, "ops": ops, "then": rng.choice(["reload", "reopen"])}, gen, n))
         if r2 < 0.12:
             twin = TWINS.get(t)
             src = twin if (twin and rng.random() < 0.5) else t
@@ -926,10 +977,67 @@ def trim_obs(case):
             used.add("item")
     used.update(TWINS[n] for n in list(used) if n in TWINS)
     for st in case["steps"]:
-        if "t" not in st:
+        if "t" not in st or st["k"] == "fcommit":
             st["ot"] = [n for n in st["ot"] if n in used]
             st["qs"] = [q for q in st["qs"] if q["t"] in used]
     return case
+
+
+def lifetime_cases():
+    """deterministic block: (a) a FRESH TestSuite edits a relation and COMMITS, then the main suite reloads
+    or is re-opened and must show the committed list (main had the relation loaded, with and without
+    pending changes of its own); (b) iterators obtained before an append/extend and consumed after;
+    (c) process(gzip=True) over leftover plain rows when the run produces nothing for an affected relation.
+    (Several iterators alive at once are probed on every observed table after every step.)"""
+    gen = Gen(__import__("random").Random(41))
+    S = lambda x: {"str": cps(x)}
+    I = lambda n: {"int": str(n)}
+    it = lambda i, x: [I(i), S(x), None]
+    nt = lambda i, x: [I(i), S(x)]
+    item3 = [it(1, "s1"), it(2, "s2"), it(3, "s3")]
+    note2 = [nt(1, "n1"), nt(2, "n2")]
+    edits = [
+        [{"k": "append", "row": it(4, "foreign")}],
+        [{"k": "update", "i": 0, "data": [["i-input", S("edited")]]}],
+        [{"k": "setslice", "sl": [0, 1, None], "rows": []}],
+        [{"k": "setslice", "sl": [1, None, None], "rows": []}, {"k": "append", "row": it(9, "z")}],
+        [{"k": "clear"}],
+        [{"k": "clear"}, {"k": "append", "row": it(7, "only")}],
+    ]
+    for gz in (False, True):
+        for ei, ops in enumerate(edits):
+            for then in ("reload", "reopen"):
+                pre = []
+                if ei % 3 == 1:
+                    pre = [{"k": "append", "t": "item", "row": it(50, "mine, pending")}]      # discarded by reload
+                elif ei % 3 == 2:
+                    pre = [{"k": "append", "t": "note", "row": nt(50, "pending elsewhere")}]
+                steps = pre + [{"k": "fcommit", "t": "item", "ops": ops, "then": then},
+                               {"k": "append", "t": "item", "row": it(60, "after")}, {"k": "commit"}, {"k": "reopen"}]
+                yield {"kind": "fcommit", "tables": {"item": {"init": item3, "gz": gz}, "note": {"init": note2, "gz": gz}},
+                       "steps": [with_obs(json.loads(json.dumps(st)), gen, 4) for st in steps]}
+    for gz in (False, True):
+        steps = [{"k": "append", "t": "item", "row": it(4, "a"), "hold": True},
+                 {"k": "extend", "t": "item", "rows": [it(5, "b"), it(6, "c")], "hold": True},
+                 {"k": "commit"},
+                 {"k": "append", "t": "item", "row": it(7, "d"), "hold": True},
+                 {"k": "clear", "t": "item"},
+                 {"k": "append", "t": "item", "row": it(8, "e"), "hold": True},
+                 {"k": "extend", "t": "item", "rows": [it(9, "f"), it(9, "bad", )[:2]], "hold": True},
+                 {"k": "commit"}, {"k": "reopen"}]
+        yield {"kind": "heldit", "tables": {"item": {"init": item3, "gz": gz}},
+               "steps": [with_obs(json.loads(json.dumps(st)), gen, 5) for st in steps]}
+    # leftover rows in relations the new run writes nothing to
+    ed = lambda i: [I(i), I(1), S("np"), None, None]
+    for gz_store in (False, True):
+        steps = [{"k": "process", "b": 2, "gz": True, "script": [{"results": []}]},
+                 {"k": "commit"}, {"k": "reopen"}]
+        yield {"kind": "leftover",
+               "tables": {"item": {"init": item3, "gz": False},
+                          "edge": {"init": [ed(1), ed(2)], "gz": gz_store},
+                          "result": {"init": [[I(1), I(0), S("m"), None]], "gz": gz_store},
+                          "run": {"init": [[I(0), None, S("p"), None]], "gz": gz_store}},
+               "steps": [with_obs(json.loads(json.dumps(st)), gen, 4) for st in steps]}
 
 
 def negindex_cases():
@@ -948,7 +1056,7 @@ def negindex_cases():
 class C10(Check):
     pid = "C10"
     props_modules = ["Verif.C10.Props", "Verif.C10.ComposeProps"]
-    quick_cases = 340
+    quick_cases = 280
     search_budget = {"quick": 200, "thorough": 5000}
     thorough_cases = 3000
     rule = ("one case = one history over a profile with six relations (item, note, parse, result, run, edge), "
@@ -977,6 +1085,12 @@ class C10(Check):
         "with flags, edges with daughters/alternates, a run without 'end' (datetime.now()), input rows keyed by "
         "parse-id only (_i_id_map, transfer/generate tasks); integer cells use a fixed coding shared by harness "
         "and model (0 None, 4n+1 / 4n+2 integers, 4k+3 interned other values)",
+        "a `foreign` step (another TestSuite takes rows of this one, edits ITS table, never commits) is a no-op in "
+        "the plain-list spec and is sent to the model as `noop`; `fcommit` (the other suite commits, this one "
+        "reloads / is re-opened) is modelled: reload-all, the edits, commit-all",
+        "oracle-only observations (not compared with the model): what a fresh TestSuite shows after every step, "
+        "the processor calls (datum, keys) in order, the iterator-lifetime probes, held iterators; the flag `same` "
+        "in the composed observation is computed by the driver (composed bookkeeping = abstract table) and expected true",
         "during process the real tables are observed from the callback (once per item, before its rows are "
         "added) and compared with the model's state after the same number of items",
         "after commit the compressed/plain form follows the code's rule (compressed stays compressed unless "
@@ -1100,6 +1214,7 @@ class C10(Check):
         yield from linebreak_cases()
         yield from alias_cases()
         yield from negstep_cases()
+        yield from lifetime_cases()
         if tier == "quick":
             yield from exhaustive_cases(rng, 2)
         else:
@@ -1145,6 +1260,7 @@ class C10(Check):
                  "it": [trow(r) for r in t],
                  "gi": [_unwrap(guarded(lambda i=i: trow(t[i]))) for i in range(-n - 1, n + 1)],
                  "tx": bool(t._in_transaction)}
+            o["IT"] = iter_probes(t, n)
             t.close()
             tx, gzp = os.path.exists(os.path.join(d, name)), os.path.exists(os.path.join(d, name + ".gz"))
             obs["files"][name] = [tx, gzp]
@@ -1186,6 +1302,7 @@ class C10(Check):
             for st in case["steps"]:
                 k = st["k"]
                 calls = None
+                held = None
                 if k == "commit":
                     res = guarded(ts.commit)
                 elif k == "reload":
@@ -1193,6 +1310,24 @@ class C10(Check):
                 elif k == "reopen":
                     ts = itsdb.TestSuite(d)
                     res = {"ok": None}
+                elif k == "fcommit":
+                    other = itsdb.TestSuite(d)
+                    ot = other[st["t"]]
+                    for sub in st["ops"]:
+                        if sub["k"] == "append":
+                            guarded(lambda: ot.append([py_val(v) for v in sub["row"]]))
+                        elif sub["k"] == "update":
+                            guarded(lambda: ot.update(sub["i"], {c: py_val(v) for c, v in sub["data"]}))
+                        elif sub["k"] == "setslice":
+                            guarded(lambda: ot.__setitem__(sl_of(sub["sl"]), [[py_val(v) for v in r] for r in sub["rows"]]))
+                        elif sub["k"] == "clear":
+                            guarded(ot.clear)
+                    res = guarded(other.commit)
+                    if "err" not in res:
+                        if st["then"] == "reload":
+                            res = guarded(ts.reload)
+                        else:
+                            ts = itsdb.TestSuite(d)
                 elif k == "process":
                     cpu = ScriptedCPU(st["script"])
                     phases = []
@@ -1232,6 +1367,10 @@ class C10(Check):
                             return [one for _ in rows]          # the SAME object at several positions
                         return [mk(r) for r in rows]
                     passed = None
+                    held = None
+                    if st.get("hold") and k in ("append", "extend"):
+                        hit = iter(t)
+                        held = [[trow(x) for x in itertools.islice(hit, 1)], None]
                     if k == "append":
                         res = guarded(lambda: t.append(mk(st["row"])))
                     elif k == "extend":
@@ -1278,6 +1417,8 @@ class C10(Check):
                         res = {"ok": None}
                     else:
                         raise ValueError(k)
+                    if held is not None:
+                        held[1] = guarded(lambda: [trow(x) for x in hit])
                     if st.get("mutate") and isinstance(passed, list):
                         # the caller keeps using its own list objects afterwards
                         for r in passed:
@@ -1287,6 +1428,7 @@ class C10(Check):
                         passed[0] = None
                 o = self.observe(ts, d, st, res.get("err"))
                 o["P"] = None
+                o["held"] = held if k not in ("commit", "reload", "reopen", "process", "fcommit") else None
                 if calls is not None:
                     o["calls"] = calls
                     o["P"] = phases
@@ -1359,6 +1501,21 @@ class C10(Check):
                         m[key] = st[key]
             if k == "foreign":
                 m = {"k": "noop", "ot": m["ot"]}
+            if k == "fcommit":
+                subs = []
+                for sub in st["ops"]:
+                    ms = {"k": sub["k"], "t": TINDEX[name]}
+                    if sub["k"] == "append":
+                        ms["row"] = in_row(name, sub["row"])
+                    if sub["k"] == "setslice":
+                        ms["sl"] = sub["sl"]
+                        ms["rows"] = [in_row(name, r) for r in sub["rows"]]
+                    if sub["k"] == "update":
+                        ms["i"] = sub["i"]
+                        ms["cols"] = [[COLIDX[name][c], cid(ckey(norm_cell(FIELDS[name][COLIDX[name][c]][1], v)))]
+                                      for c, v in sub["data"]]
+                    subs.append(ms)
+                m["ops"] = subs
             if k == "process":
                 m["b"] = 1000 if st["b"] is None else st["b"]      # TestSuite.process default (pinned: c10Defaults)
                 m["gz"] = st["gz"]
@@ -1399,6 +1556,8 @@ class C10(Check):
             if o.get("P") is not None:
                 P = [[{"it": [row(r) for r in ph[n]["it"]], "f": [row(r) for r in ph[n]["f"]], "tx": ph[n]["tx"]}
                       for n in NAMES] for ph in o["P"]]
+            # "same" is computed by the DRIVER (`decide (composed.t = abstract.t)` per observed table: the bridge
+            # theorems checked on the generated history); the expectation is that it always holds
             R = {"e": o["e"], "T": [{"lines": o["T"][n]["raw"], "tx": o["files"][n][0], "gzf": o["files"][n][1],
                                      "same": True} for n in NAMES if n in o["T"]]}
             out.append({"e": o["e"], "intx": o["intx"], "T": T,
@@ -1431,6 +1590,16 @@ class C10(Check):
                 for c, v in st["data"]:
                     if c in COLIDX[name]:
                         addv(v)
+            if k == "fcommit":
+                for sub in st["ops"]:
+                    if sub["k"] == "append":
+                        add(name, sub["row"])
+                    if sub["k"] == "setslice":
+                        for r in sub["rows"]:
+                            add(name, r)
+                    if sub["k"] == "update":
+                        for c, v in sub["data"]:
+                            addv(v)
             if k == "process":
                 for t in st["script"]:
                     for key, v in t.items():
@@ -1493,21 +1662,51 @@ class C10(Check):
                     if got != w:
                         fail(si, "table[i] differs from list[i]", (n, i, got, w))
                         break
+                for pname, got in t.get("IT", {}).items():
+                    if "err" in got:
+                        fail(si, "iterators alive at the same time: iteration raised (%s)" % pname, (n, got))
+                        break
+                    pair = (lambda ab: [tuple(ckey(v) for v in ab[0]), tuple(ckey(v) for v in ab[1])])
+                    if pname == "nested":
+                        ok = [pair(x) for x in got["ok"]] == [[a, b] for a in want for b in want]
+                    else:
+                        m = got["ok"]
+                        ok = (keys(m["first"]) == want[:1] and keys(m["rest"]) == want[1:]
+                              and keys(m["sfirst"]) == want[:1] and keys(m["srest"]) == want[1:]
+                              and keys(m["full"]) == want and keys(m["sel"]) == want
+                              and [pair(x) for x in m["zip"]] == [[r, r] for r in want])
+                    if not ok:
+                        fail(si, "iterators alive at the same time: iteration differs from the list (%s)" % pname, n)
+                        break
                 if keys(t["f"]) != stored[n]:
                     fail(si, "relation file differs from the last committed list", (n, keys(t["f"]), stored[n]))
                 if keys(o["fresh"][n]) != stored[n]:
                     fail(si, "a fresh TestSuite does not show the last committed list", (n,))
-                if t["tx"] and want == stored[n] and k in ("commit", "reload", "reopen", "process") and o["e"] is None:
+                if t["tx"] and want == stored[n] and k in ("commit", "reload", "reopen", "process", "fcommit") and o["e"] is None:
                     fail(si, "table in transaction after commit/reload/process", n)
                 tx, gzp = o["files"][n]
                 if tx == gzp:
                     fail(si, "relation must exist in exactly one physical form", (n, tx, gzp))
-            if k in ("commit", "reload", "reopen", "process") and o["e"] is None and o["intx"]:
+            if k in ("commit", "reload", "reopen", "process", "fcommit") and o["e"] is None and o["intx"]:
                 fail(si, "in_transaction is true after commit/reload/process", k)
             if k == "commit" and o["e"] is None:
                 for n, t in o["T"].items():
                     if keys(t["f"]) != cur[n]:
                         fail(si, "commit did not make the stored relation equal to the list", n)
+            # --- an iterator obtained before an append/extend and consumed after it: the property speaks of
+            # iteration "of the list at the time of iteration"; for an iteration that spans a mutation both
+            # readings are accepted (the rows before, or the rows after the mutation), an exception is not
+            if o.get("held") is not None:
+                first, rest = o["held"]
+                before, after = prev_cur[st["t"]], cur[st["t"]]
+                if keys(first) != before[:1]:
+                    fail(si, "iterator held across an append: first row differs", (keys(first), before[:1]))
+                elif "err" in rest:
+                    fail(si, "iterator held across an append raised", rest)
+                elif before and keys(rest["ok"]) not in (before[1:], after[1:]):
+                    fail(si, "iterator held across an append: neither the rows before nor the rows after", keys(rest["ok"]))
+                elif not before and rest["ok"]:
+                    fail(si, "exhausted iterator yields rows after an append", keys(rest["ok"]))
             # --- queries
             for q, a in zip(st.get("qs", []), o["Q"]):
                 want = cur[q["t"]]
